@@ -193,6 +193,12 @@ class SymArray(_np.ndarray):
                 value = S(const(value))
         _np.ndarray.__setitem__(self.view(_np.ndarray), unwrap(key) if isinstance(key, tuple) else key, value)
 
+    def mean(self, axis=None, dtype=None, out=None, keepdims=False, **kw):
+        return _h_mean(self, axis, dtype, out, keepdims, **kw)
+
+    def var(self, axis=None, dtype=None, out=None, ddof=0, keepdims=False, **kw):
+        return _h_var(self, axis, dtype, out, ddof, keepdims, **kw)
+
     def item(self, *a):
         r = _np.ndarray.item(self.view(_np.ndarray), *a)
         return S(r.n, self._nd) if isinstance(r, S) else r
@@ -397,6 +403,44 @@ def _h_min(a, axis=None, out=None, keepdims=False, **kw):
     return wrap(_canon_reduce(a, axis, bool(keepdims), False, False), a._nd)
 
 
+def _count(shape, axis):
+    if axis is None:
+        return int(_np.prod(shape, dtype=int))
+    axes = axis if isinstance(axis, tuple) else (axis,)
+    n = 1
+    for ax in axes:
+        n *= shape[ax]
+    return n
+
+
+def _h_mean(a, axis=None, dtype=None, out=None, keepdims=False, **kw):
+    """np.mean = add.reduce / count (NumPy's own _mean converts a 0-d result with dtype.type(), which a
+    symbolic scalar cannot go through); dtype rules as NumPy: float arrays keep their dtype."""
+    if out is not None or kw or dtype is not None:
+        raise Unsupported("np.mean options")
+    if isinstance(axis, list):
+        axis = tuple(axis)
+    tot = _np.add.reduce(a, axis=axis, keepdims=bool(keepdims))
+    n = _count(a.shape, axis)
+    if n == 0:
+        raise Unsupported("mean of an empty slice")
+    r = tot / n
+    return wrap(unwrap(r) if isinstance(r, SymArray) else r, a._nd)
+
+
+def _h_var(a, axis=None, dtype=None, out=None, ddof=0, keepdims=False, **kw):
+    if out is not None or kw or dtype is not None:
+        raise Unsupported("np.var options")
+    if isinstance(axis, list):
+        axis = tuple(axis)
+    m = _h_mean(a, axis=axis, keepdims=True)
+    d = a - m
+    tot = _np.add.reduce(d * d, axis=axis, keepdims=bool(keepdims))
+    n = _count(a.shape, axis) - ddof
+    r = tot / n
+    return wrap(unwrap(r) if isinstance(r, SymArray) else r, a._nd)
+
+
 def _h_zeros_like(a, dtype=None, order="K", subok=True, shape=None, **kw):
     nd = _np.dtype(dtype) if dtype is not None else a.dtype
     shp = a.shape if shape is None else shape
@@ -495,6 +539,8 @@ def _h_array_equal(a1, a2, equal_nan=False):
 
 
 _FUNC_HANDLERS = {
+    _np.mean: _h_mean,
+    _np.var: _h_var,
     _np.max: _h_max,
     _np.amax: _h_max,
     _np.min: _h_min,
